@@ -61,7 +61,7 @@ def render_sec(nums, conns, colon, rng, plain=False):
         c = (THRU if conns[j - 1] == "THRU" else AND)[0] if plain else rng.choice(THRU if conns[j - 1] == "THRU" else AND)
         out += c + str(nums[j])
     if colon:
-        out += ":"
+        out += ":" if plain else rng.choice([":", ":", ":", " :"])      # (the pattern allows blanks before the colon)
     return out
 
 
